@@ -59,6 +59,7 @@ def from_behaviour(seed, idx, hist, keybase):
     conns = {}
     steps = []
     holder = None           # driver-side guess only used for the expect_pending hint (never for judging)
+    vkeys = []
     waited = set()
     promote = False
     # `expire` steps of the model: the hold of LockId h.lid (command = request h.n, taken on connection h.c) expires on the
@@ -76,6 +77,8 @@ def from_behaviour(seed, idx, hist, keybase):
     nnote = 0
     for hi, h in enumerate(hist):
         op = h["op"]
+        if op == "expire" and h["lid"] == 99:
+            continue        # (the hold of a key command: sent with a time of 600 s and more - not waited for)
         if op == "expire":
             cd = conns.get(h["c"])
             visible = cd is not None and (cd["node"] == "N" or cd["proto"] == "bin") and not promote
@@ -95,6 +98,20 @@ def from_behaviour(seed, idx, hist, keybase):
                     conns[c] = {"node": "N", "proto": "text"}
                 else:
                     conns[c] = {"node": "L", "proto": rng.choice(["bin", "text"])}
+            if h["rop"] in ("wset", "rget"):
+                # the model's value commands: on a text connection one of the registered key commands of that class on the
+                # history's value key, on a binary connection the lock frame of that class (update with data / show)
+                vkey = keybase + 48
+                if vkey not in vkeys:
+                    vkeys.append(vkey)
+                if conns[c]["proto"] == "text":
+                    q = wcmd(xrng.choice([n for n in WRITE_CMDS if n != "SETNX"]), vkey, xrng) if h["rop"] == "wset" else vcmd(xrng.choice(READ_CMDS), vkey)
+                elif h["rop"] == "wset":
+                    q = lock(key, lidbase + 9, flag=F_UPDATE, data=data_set(b"w%d" % xrng.randrange(100)))
+                else:
+                    q = lock(key, lidbase + 9, flag=F_SHOW)
+                steps.append(send(c, q))
+                continue
             lid = lidbase + h["lid"]
             ef = ZERO_AOF if rng.random() < 0.8 else 0
             sh = short_expiry(hi, h["lid"]) if h["rop"] != "unlock" else None
@@ -158,7 +175,7 @@ def from_behaviour(seed, idx, hist, keybase):
     if exp_at:
         # nothing of this history may expire into the next one: the short holds are gone before the snapshot
         steps.append({"op": "wait", "ms": 60})
-    return {"name": f"beh-{seed}-{idx}", "idx": idx, "kind": "promote" if promote else ("exp" if exp_at else "beh"), "keys": [key], "vkeys": [], "conns": conns, "steps": steps,
+    return {"name": f"beh-{seed}-{idx}", "idx": idx, "kind": "promote" if promote else ("exp" if exp_at else "beh"), "keys": [key], "vkeys": vkeys, "conns": conns, "steps": steps,
             "src": "tlc", "hist": hist}
 
 # --------------------------------------------------------------------------------------------- seeded random
@@ -632,3 +649,143 @@ def directed_expiry(seed, idx0, keybase0, stride):
              send("t2", lock(k + 4, l + 3)), send("t2", lock(k + 5, l + 3)), send("t2", unlock(k + 5, l + 3))]
     nxt("expiry-without-route", [k, k + 1, k + 2, k + 3, k + 4, k + 5], {"t1": T, "t2": dict(T), "t3": dict(T), "b1": B}, steps)
     return out
+
+# --------------------------------------------------------------------------------------------- the text key commands
+
+# every key command registered in the text dispatch tables (server/protocol.go TextServerProtocol.FindHandler,
+# server/transparency.go TransparencyTextServerProtocol.FindHandler) beside LOCK / UNLOCK / PUSH.  Which of them change engine
+# state on a leader (write class) is data of the specification (spec/mon/MonForward.tla WriteNames / ReadNames, spec/Forward.tla
+# WriteOps / ReadOps); the two lists here only steer the generators (a write is followed by reads).
+WRITE_CMDS = ["SET", "SETNX", "SETEX", "PSETEX", "GETSET", "APPEND", "INCR", "INCRBY", "DECR", "DECRBY", "EXPIRE", "PEXPIRE", "EXPIREAT", "PEXPIREAT",
+              "PERSIST", "DEL"]
+READ_CMDS = ["GET", "STRLEN", "EXISTS", "TYPE", "DUMP", "TTL", "PTTL", "KEYS", "SCAN"]
+
+def vcmd(name, key, val="", num=0):
+    return {"cmd": "V", "name": name, "key": key, "val": val, "num": num}
+
+def conn_timeout0(key):
+    """TIMEOUT SET 0: the connection's own wait time for the commands that wait (SETNX / SET .. NX on a key that exists would wait
+    15 s).  A connection-local command: handled by the node the connection is on, leader or not."""
+    return {"cmd": "C", "name": "TIMEOUT", "key": key, "val": "", "num": 0}
+
+def push(key, lid, ex=600):
+    return {"cmd": "P", "key": key, "lid": lid, "to": 0, "tf": 0, "ex": ex, "ef": ZERO_AOF, "cnt": 0, "rc": 0, "flag": 0, "data": None}
+
+def wcmd(name, key, rng=None, val=None, num=None):
+    """One write command with arguments that keep the key alive for the whole history (times of 600 s and more)."""
+    r = rng or random
+    if name in ("SET", "SETNX", "GETSET", "APPEND"):
+        return vcmd(name, key, val=val if val is not None else "v%d" % r.randrange(1000))
+    if name == "SETEX":
+        return vcmd(name, key, val=val if val is not None else "x%d" % r.randrange(1000), num=num or 600)
+    if name == "PSETEX":
+        return vcmd(name, key, val=val if val is not None else "p%d" % r.randrange(1000), num=num or 700000)
+    if name in ("INCRBY", "DECRBY"):
+        return vcmd(name, key, num=num or r.randrange(1, 10))
+    if name in ("EXPIRE", "EXPIREAT"):
+        return vcmd(name, key, num=num or 600)
+    if name in ("PEXPIRE", "PEXPIREAT"):
+        return vcmd(name, key, num=num or 700000)
+    return vcmd(name, key)
+
+def directed_values(seed, idx0, keybase0, stride):
+    """Directed histories over the whole text command table (plain followers); stride >= 64 keys each."""
+    out = []
+    def nxt(name, keys, conns, steps, vkeys=()):
+        i = len(out)
+        out.append({"name": f"dir-{name}", "idx": idx0 + i, "kind": "val", "keys": keys, "vkeys": list(vkeys), "conns": conns, "steps": steps, "src": "directed"})
+    def kb():
+        return keybase0 + len(out) * stride
+    T = {"node": "N", "proto": "text"}; LT = {"node": "L", "proto": "text"}; LB = {"node": "L", "proto": "bin"}; B = {"node": "N", "proto": "bin"}
+    numeric = ("INCR", "INCRBY", "DECR", "DECRBY")
+
+    # 1. / 2. every write command through a follower - as a NON-first command of its connection - on a key that exists and on a
+    #    key that does not; each followed by reads of the key on the LEADER and, after replication, on the follower
+    for variant in ("on-existing-keys", "on-absent-keys"):
+        k = kb()
+        steps = [send("t1", conn_timeout0(k + 40)), send("t2", conn_timeout0(k + 40)), send("d2", conn_timeout0(k + 40))]
+        vk = [k + 40]
+        for j, name in enumerate(WRITE_CMDS):
+            kk = k + j; vk.append(kk)
+            if variant == "on-existing-keys" and name != "SETNX":
+                steps.append(send("d2", vcmd("INCRBY", kk, num=5) if name in numeric else sset(kk, "old%d" % j)))
+            c = ("t1", "t2")[j % 2]
+            steps.append(send(c, wcmd(name, kk, val="new%d" % j, num={"INCRBY": 3, "DECRBY": 2}.get(name))))
+            steps += [send("d2", {"cmd": "G", "key": kk}), send("d2", vcmd("EXISTS", kk)), send("d2", vcmd("STRLEN", kk)),
+                      {"op": "wait", "ms": 15}, send(c, {"cmd": "G", "key": kk})]
+        nxt("every-write-command-through-a-follower-" + variant, [], {"t1": T, "t2": dict(T), "d2": LT}, steps, vkeys=vk)
+
+    # 3. the same write commands sent to the leader itself (the reference route), twice each: the second one meets the first's value
+    k = kb()
+    steps, vk = [send("d2", conn_timeout0(k + 40))], [k + 40]
+    for j, name in enumerate(WRITE_CMDS):
+        kk = k + j; vk.append(kk)
+        steps += [send("d2", wcmd(name, kk, val="a%d" % j, num={"INCRBY": 3, "DECRBY": 2}.get(name))), send("d2", {"cmd": "G", "key": kk}),
+                  send("d2", wcmd(name, kk, val="b%d" % j, num={"INCRBY": 4, "DECRBY": 1}.get(name))), send("d2", {"cmd": "G", "key": kk}), send("d2", vcmd("STRLEN", kk))]
+    nxt("every-write-command-on-the-leader", [], {"d2": LT}, steps, vkeys=vk)
+
+    # 4. every read command through a follower (answered from the replica) and on the leader: string, number, key with a
+    #    time-to-live, absent key
+    k = kb()
+    vk = [k, k + 1, k + 2, k + 3, k + 40]
+    steps = [send("d2", sset(k, "hello")), send("d2", vcmd("INCRBY", k + 1, num=41)), send("d2", vcmd("SETEX", k + 2, val="timed", num=900)),
+             send("t1", {"cmd": "G", "key": k + 40}), {"op": "wait", "ms": 30}]
+    for kk in (k, k + 1, k + 2, k + 3):
+        for name in READ_CMDS:
+            steps += [send("t1", vcmd(name, kk)), send("d2", vcmd(name, kk))]
+    nxt("every-read-command-through-a-follower", [], {"t1": T, "d2": LT}, steps, vkeys=vk)
+
+    # 5. a chain of writes to ONE key through alternating routes: each command meets the value the previous one left
+    k = kb()
+    steps = [send("t1", conn_timeout0(k + 40)), send("t2", conn_timeout0(k + 40)), send("d2", conn_timeout0(k + 40))]
+    chain = [("t1", vcmd("SETNX", k, val="one")), ("d2", vcmd("GETSET", k + 1, val="x")), ("t2", vcmd("GETSET", k + 1, val="two")), ("t1", vcmd("APPEND", k + 1, val="-three")),
+             ("d2", vcmd("APPEND", k + 1, val="+4")), ("t2", vcmd("GETSET", k + 1, val="five")), ("t1", vcmd("EXPIRE", k + 1, num=900)), ("t2", vcmd("PERSIST", k + 1)),
+             ("t1", vcmd("INCR", k + 2)), ("t2", vcmd("INCRBY", k + 2, num=7)), ("d2", vcmd("DECR", k + 2)), ("t1", vcmd("DECRBY", k + 2, num=3)), ("t2", vcmd("GETSET", k + 2, val="str")),
+             ("t1", vcmd("DEL", k + 1)), ("t2", vcmd("GETSET", k + 1, val="again")), ("t1", vcmd("DEL", k)), ("t2", vcmd("SETNX", k, val="fresh")),
+             ("t1", vcmd("SETEX", k + 3, val="s", num=900)), ("t2", vcmd("PSETEX", k + 3, val="ps", num=800000)), ("t1", vcmd("GETSET", k + 3, val="plain"))]
+    for c, q in chain:
+        steps += [send(c, q), send("d2", {"cmd": "G", "key": q["key"]}), {"op": "wait", "ms": 10}, send("t1" if c != "t1" else "t2", vcmd("STRLEN", q["key"]))]
+    nxt("write-chain-through-alternating-routes", [], {"t1": T, "t2": dict(T), "d2": LT}, steps, vkeys=[k, k + 1, k + 2, k + 3, k + 40])
+
+    # 6. PUSH (a LOCK without an answer of its own) through a follower and on the leader; a write command as the FIRST command of
+    #    a text connection (run by the inner table: refused - the known first-command deviation)
+    k = kb(); l = k * 8
+    steps = [send("t1", {"cmd": "G", "key": k + 40}), send("t1", push(k, l + 1)), {"op": "wait", "ms": 40}, send("d1", lock(k, l + 2)), send("t1", unlock(k, l + 1)),
+             send("d2", push(k + 1, l + 3)), {"op": "wait", "ms": 20}, send("b1", lock(k + 1, l + 4)), send("d2", unlock(k + 1, l + 3)),
+             send("t3", vcmd("INCR", k + 41)), send("t3", vcmd("INCR", k + 41)), send("t4", vcmd("GETSET", k + 42, val="n")), send("t4", vcmd("GETSET", k + 42, val="m")),
+             send("d2", {"cmd": "G", "key": k + 41}), send("d2", {"cmd": "G", "key": k + 42})]
+    nxt("push-and-first-command-writes", [k, k + 1], {"t1": T, "t3": dict(T), "t4": dict(T), "b1": B, "d1": LB, "d2": LT}, steps, vkeys=[k + 40, k + 41, k + 42])
+    return out
+
+def gen_values(seed, idx, keybase):
+    """Seeded histories over the whole text command table: two to four value keys, write commands through the non-leader (never as
+    the first command of a connection) and on the leader, each write followed by reads of the key on the LEADER and on the
+    follower; times to live of 600 s and more (the expiry histories have the short ones)."""
+    rng = random.Random(f"fwdval/{seed}/{idx}")
+    T = {"node": "N", "proto": "text"}
+    conns = {"t1": dict(T), "t2": dict(T), "d2": {"node": "L", "proto": "text"}}
+    nk = rng.choice([2, 3, 3, 4])
+    vkeys = [keybase + i for i in range(nk)] + [keybase + 40]
+    steps = [send("t1", conn_timeout0(keybase + 40)), send("t2", conn_timeout0(keybase + 40)), send("d2", conn_timeout0(keybase + 40))]
+    kind = {}            # generator's guess of what a key holds ("s" / "n" / None): steers the choice only
+    numeric = ("INCR", "INCRBY", "DECR", "DECRBY")
+    for _ in range(rng.randrange(9, 18)):
+        k = rng.choice(vkeys[:-1])
+        c = rng.choice(["t1", "t2", "t1", "t2", "d2"])
+        if rng.random() < 0.8:
+            names = [n for n in WRITE_CMDS if rng.random() < 0.1 or not ((n in numeric and kind.get(k) == "s") or (n == "APPEND" and kind.get(k) == "n"))]
+            name = rng.choice(names)
+            steps.append(send(c, wcmd(name, k, rng)))
+            if name in numeric:
+                kind[k] = kind.get(k) or "n"
+            elif name == "DEL":
+                kind[k] = None
+            elif name in ("SET", "GETSET", "SETEX", "PSETEX") or (name in ("SETNX", "APPEND") and kind.get(k) is None):
+                kind[k] = "s"
+            if rng.random() < 0.7:
+                steps.append(send("d2", rng.choice([{"cmd": "G", "key": k}, {"cmd": "G", "key": k}, vcmd("STRLEN", k), vcmd("EXISTS", k)])))
+            if rng.random() < 0.35:
+                steps += [{"op": "wait", "ms": 10}, send(rng.choice(["t1", "t2"]), vcmd(rng.choice(READ_CMDS), k))]
+        else:
+            steps.append(send(c, vcmd(rng.choice(READ_CMDS), k)))
+    return {"name": f"val-{seed}-{idx}", "idx": idx, "kind": "val", "keys": [], "vkeys": vkeys, "conns": conns, "steps": steps, "src": "seeded-values"}
